@@ -19,7 +19,7 @@ import (
 
 // Op is one step of a wire scenario.
 type Op struct {
-	Kind   string // join | unsub | plain | unplain | disconnect | drop | reconnect | publish | terminate
+	Kind   string // join | unsub | plain | unplain | disconnect | drop | reconnect | publish | terminate | expire
 	M      int    `json:",omitempty"`
 	Group  string `json:",omitempty"`
 	Filter string `json:",omitempty"`
@@ -33,6 +33,7 @@ type Op struct {
 type Scenario struct {
 	Mode       string
 	Persistent []bool // per member: session expiry 3600 or 0
+	Short      int    // index+1 of the one member whose session expiry is 1 s (0 = none); it leaves groups by expiry
 	Ops        []Op
 }
 
@@ -58,6 +59,11 @@ func gen(rng *rand.Rand, maxOps int) Scenario {
 	for i := 0; i < nm; i++ {
 		sc.Persistent = append(sc.Persistent, rng.Intn(2) == 0)
 	}
+	if rng.Intn(3) == 0 {
+		sc.Short = 1 + rng.Intn(nm)
+		sc.Persistent[sc.Short-1] = true
+	}
+	expired := false
 	topics := [][]string{{"a/b", "a/c", "a", "$s/b"}, {"x", "x/y", "/", "x/"}}[rng.Intn(2)]
 	filters := [][]string{{"a/b", "a/+", "a/#", "#", "+/b", "$s/+"}, {"x", "x/#", "+", "+/+", "x/+", "/"}}[0]
 	if topics[0] == "x" {
@@ -97,6 +103,17 @@ func gen(rng *rand.Rand, maxOps int) Scenario {
 				online[m] = false
 			}
 		case x < 63:
+			if m == sc.Short-1 && !online[m] {
+				// the member with the short expiry comes back (Clean Start 0) after its session has expired and
+				// before any expiry sweep of the broker can have run: it left every group by expiry
+				if expired {
+					break
+				}
+				expired = true
+				sc.Ops = append(sc.Ops, Op{Kind: "expire", M: m})
+				online[m] = true
+				break
+			}
 			// reconnect: for an online member this is a take-over
 			sc.Ops = append(sc.Ops, Op{Kind: "reconnect", M: m, Clean: rng.Intn(2) == 0})
 			online[m] = true
@@ -105,6 +122,29 @@ func gen(rng *rand.Rand, maxOps int) Scenario {
 			online[m] = false
 		default:
 			sc.Ops = append(sc.Ops, Op{Kind: "publish", Topic: topics[rng.Intn(len(topics))], QoS: byte(rng.Intn(3)), API: rng.Intn(4) == 0})
+		}
+	}
+	if sc.Short != 0 && !expired {
+		// directed epilogue: the short-lived member and another one share a group; the short-lived one leaves by expiry,
+		// comes back without subscribing, and the group keeps being served
+		m := sc.Short - 1
+		other := (m + 1) % nm
+		f, t := filters[0], topics[0]
+		if !online[m] {
+			sc.Ops = append(sc.Ops, Op{Kind: "expire", M: m})
+		}
+		if !online[other] {
+			sc.Ops = append(sc.Ops, Op{Kind: "reconnect", M: other, Clean: false})
+		}
+		sc.Ops = append(sc.Ops, Op{Kind: "join", M: m, Group: "g1", Filter: f, QoS: 1}, Op{Kind: "join", M: other, Group: "g1", Filter: f, QoS: 1},
+			Op{Kind: "plain", M: m, Filter: f, QoS: 1}, Op{Kind: "publish", Topic: t, QoS: 1}, Op{Kind: "disconnect", M: m}, Op{Kind: "publish", Topic: t, QoS: 1})
+		if online[m] {
+			sc.Ops = append(sc.Ops, Op{Kind: "expire", M: m})
+		} else {
+			sc.Ops = append(sc.Ops, Op{Kind: "reconnect", M: m, Clean: true})
+		}
+		for k := 0; k < 4; k++ {
+			sc.Ops = append(sc.Ops, Op{Kind: "publish", Topic: t, QoS: byte(k % 3), API: k == 3})
 		}
 	}
 	return sc
@@ -183,6 +223,9 @@ func runW(sc *Scenario) (fs []finding, obs map[string]int, hist map[string]int, 
 		p := &mqttx.Packet{ClientID: fmt.Sprintf("m%d", i), CleanStart: clean}
 		if sc.Persistent[i] {
 			e := uint32(3600)
+			if i == sc.Short-1 {
+				e = 1
+			}
 			p.Props = &mqttx.Props{SessionExpiry: &e}
 		}
 		ack, err := c.Connect(p, step)
@@ -245,10 +288,11 @@ func runW(sc *Scenario) (fs []finding, obs map[string]int, hist map[string]int, 
 		ms[i].sentinelSub = false
 	}
 	seq := 0
+	closedAt := map[int]time.Time{}
 	for oi, o := range sc.Ops {
 		m := o.M
 		switch o.Kind {
-		case "disconnect", "drop", "terminate", "reconnect":
+		case "disconnect", "drop", "terminate", "reconnect", "expire":
 			if !barrier(m) {
 				return
 			}
@@ -294,6 +338,7 @@ func runW(sc *Scenario) (fs []finding, obs map[string]int, hist map[string]int, 
 				add("close.not_observed", "OnClosed never fired for "+id)
 				return
 			}
+			closedAt[m] = time.Now()
 			if !sc.Persistent[m] {
 				if _, ok := b.Log.Wait(from, func(e broker.Event) bool { return e.Kind == "OnSessionTerminated" && e.Client == id }, step); !ok {
 					add("session_end.not_observed", "session of "+id+" (expiry 0) not terminated at disconnect")
@@ -317,6 +362,32 @@ func runW(sc *Scenario) (fs []finding, obs map[string]int, hist map[string]int, 
 			}
 			ms[m].online = false
 			endSession(m)
+		case "expire":
+			// OnClosed was observed at closedAt; 1.7 s later the 1 s session has certainly expired (a sleep can only last longer)
+			if d := time.Until(closedAt[m].Add(1700 * time.Millisecond)); d > 0 {
+				time.Sleep(d)
+			}
+			if !ms[m].exists {
+				// terminated meanwhile through the API: an ordinary reconnect
+				obs["expire_after_terminate"]++
+			}
+			sp, err := connect(m, false)
+			if err != nil {
+				add("reconnect", err.Error())
+				return
+			}
+			if sp {
+				add("expire.session_present", fmt.Sprintf("op %d: m%d came back %v after its connection ended, session expiry 1 s, CONNACK says session present", oi, m, time.Since(closedAt[m])))
+				return
+			}
+			endSession(m)
+			if _, err := ms[m].c.Subscribe([]mqttx.Sub{{Filter: fmt.Sprintf("sent/m%d", m), QoS: 1}}, 0, step); err != nil {
+				add("reconnect.subscribe", err.Error())
+				return
+			}
+			ms[m].sentinelSub = true
+			ms[m].exists = true
+			obs["left_by_expiry_then_reconnected"]++
 		case "reconnect":
 			wasOnline := ms[m].online
 			sp, err := connect(m, o.Clean)
@@ -379,6 +450,10 @@ func runW(sc *Scenario) (fs []finding, obs map[string]int, hist map[string]int, 
 		if !mm.online {
 			if !mm.exists {
 				continue // nothing can be queued for a member without session
+			}
+			if i == sc.Short-1 {
+				endSession(i) // its 1 s session may have expired by now or not: what was queued for it is unobservable
+				continue
 			}
 			sp, err := connect(i, false)
 			if err != nil {
